@@ -95,6 +95,31 @@ IMPORTS = [('import', 'math', None), ('import', 'os.path', None), ('import', 'js
            ('from', 'xml.dom.minidom', None), ('import', 'xml.dom.minidom', None)]
 
 
+# Virtual include files (served by a file reader registered in the forked child), each given as
+# (text, equivalent statements): an include statement means "these statements, here".
+_L = lambda t: ['lit', repr(t)]
+VFILES = {
+    'a.gin': ("fa.r = 'inc-a'\n", [['bind', '', 'fa', 'r', _L('inc-a')]]),
+    'dir/b.gin': ("s/fa.p = 'inc-b'\nM = 'inc-bM'\n",
+                  [['bind', 's', 'fa', 'p', _L('inc-b')], ['macro', '', 'M', _L('inc-bM')]]),
+    '/abs/c.gin': ("include 'a.gin'\nm2.fb.q = 'inc-c'\n",
+                   [['bind', '', 'fa', 'r', _L('inc-a')], ['bind', '', 'm2.fb', 'q', _L('inc-c')]]),
+    'p.q/r.gin': ("# block form\nK:\n  p = 'inc-r'\n\n", [['bind', '', 'K', 'p', _L('inc-r')]]),
+}
+
+
+def _install_vfiles():
+  import io  # pylint: disable=g-import-not-at-top
+  gin.config.register_file_reader(lambda path: io.StringIO(VFILES[path][0]), lambda path: path in VFILES)
+
+
+def expand_includes(stmts):
+  out = []
+  for s in stmts:
+    out.extend(VFILES[s[1]][1] if s[0] == 'include' else [s])
+  return out
+
+
 class Ref:
 
   def __init__(self, sigil, name, evaluate):
@@ -186,9 +211,14 @@ def check_layout(case):
     rendered.append((text, feats))
   (ta, fa), (tb, fb) = rendered
   labels = {'kind:layout'} | {'feat:' + f for f in fa | fb}
-  semantic = not any(s[0] == 'include' for s in stmts)
+  semantic = True
   if semantic:
     labels.add('layer2')
+    if any(s[0] == 'include' for s in stmts):
+      _install_vfiles()
+      labels.add('layer2:includes-applied')
+      if len({s[1] for s in stmts if s[0] == 'include'}) < sum(s[0] == 'include' for s in stmts):
+        labels.add('layer2:same-file-included-twice')
     outs = []
     for text in (ta, tb):
       gin.clear_config()
@@ -199,7 +229,7 @@ def check_layout(case):
       outs.append(gin.config_str())
       # direct expectation: last writer wins per (scope, full selector, arg)
       last = {}
-      for s in stmts:
+      for s in expand_includes(stmts):
         if s[0] == 'bind':
           last[(s[1], SELECTORS[s[2]][0], s[3])] = s[4]
         elif s[0] == 'macro':
@@ -385,7 +415,7 @@ def _values(depth=2):
 @st.composite
 def _stmt(draw, allow_include=True):
   kind = draw(st.sampled_from(['bind'] * 6 + ['macro', 'macro', 'import'] +
-                              (['include'] if allow_include else [])))
+                              (['include', 'include'] if allow_include else [])))
   if kind == 'bind':
     sel = draw(st.sampled_from(sorted(SELECTORS)))
     arg = draw(st.sampled_from(SELECTORS[sel][1]))
@@ -406,6 +436,12 @@ def _stmts(draw, allow_include=True, min_size=1, max_size=10):
   while len(out) < n:
     s = draw(_stmt(allow_include))
     out.append(s)
+    if s[0] == 'include' and draw(st.booleans()):
+      # what the file bound is overridden, and perhaps the file is included once more
+      ov = draw(st.sampled_from(VFILES[s[1]][1]))
+      out.append(ov[:-1] + [['lit', "'override'"]])
+      if draw(st.booleans()):
+        out.append(list(s))
     # runs of bindings for the same scope/selector make blocks with several members possible
     if s[0] == 'bind' and draw(st.integers(0, 2)) == 0:
       for _ in range(draw(st.integers(1, 3))):
